@@ -113,6 +113,7 @@ func (r *storeRun) op(t *toks) {
 	switch code {
 	case 40: // NewCollection on a fresh file: dim q metric <bytes json>
 		dim, q, metric := int(t.next()), int(t.next()), int(t.next())
+		_ = t.next() // growth amount: an oracle argument of the model only
 		_ = t.bytesN()
 		os.Remove(r.path)
 		c, err := syz.NewCollection(syz.CollectionOptions{Name: r.path, DistanceMethod: metric, DimensionCount: dim, Quantization: q, FileMode: syz.CreateAndOverwrite})
@@ -249,6 +250,14 @@ func (r *storeRun) op(t *toks) {
 		out = saved
 		snapHook = nil
 		code = 50
+		// the amount by which the inner operation grew the file (an oracle argument of the model), on a line of its own
+		grown := uint64(0)
+		for _, st := range steps {
+			if st.kind == 1 {
+				grown = st.a
+			}
+		}
+		line(52, grown)
 		if snap == nil {
 			snap = r.file().VerifImage()
 		}
